@@ -113,6 +113,16 @@ def result_digest(r):
                 h.update(np.ascontiguousarray(np.asarray(vals, dtype=float)).tobytes())
             if getattr(v, "_vals", None) is not None and hasattr(v, "source") is False and type(v).__name__ == "TimedCompartment":
                 h.update(np.ascontiguousarray(v._vals).tobytes())
+        # the flows as a user asks for them: by the name of the parameter that drives them (a look-up table that copies have to rebuild)
+        for par in p.pars:
+            if getattr(par, "links", None):
+                try:
+                    ls = p.get_variable(par.name + ":flow")
+                    tot = np.sum([np.asarray(l.vals, dtype=float) for l in ls], axis=0)
+                    h.update(repr((p.name, par.name, "flow by name", len(ls))).encode())
+                    h.update(np.ascontiguousarray(tot).tobytes())
+                except Exception as ex:
+                    h.update(repr((p.name, par.name, "flow by name", type(ex).__name__)).encode())
     return h.hexdigest()[:16]
 
 
